@@ -61,25 +61,40 @@ Proof. reflexivity. Qed.
 
 (* The faithful model of the Go compiler against the spec - the link theorem: for every well-formed
    schema the model compiles it and the oracle `satisfies` accepts the model's output (so the
-   property holds on every input on which compiler and model agree). *)
+   property holds on every input on which compiler and model agree).
+
+   Four more points are read off the source (findings F26..F29; the flags are `false` as long as a
+   repair is missing).  Each hypothesis below reads "the compiler does it the spec's way, or the schema
+   stays clear of the shape": the hypotheses the proof forces ARE the findings.  With a flag `true`
+   its hypothesis holds for every schema (`or_introl`), and the theorem is the unconditional one. *)
 Theorem go_model_meets_spec :
   forall a, wf a = true ->
+  (parser_inherited_grants_once = true \/ no_inherited_acl a = true) ->       (* F28 *)
+  (parser_lookup_respects_package = true \/ names_distinct a = true) ->       (* F26 *)
+  (parser_inherits_in_own_package = true \/ inherits_qualified a = true) ->   (* F27 *)
+  (parser_descriptor_refs_analysed = true \/ no_desc_ref_targets a = true) -> (* F29 *)
   exists d, compile a Go = Some d /\ satisfies (Trace a (render a) (Compiled d true true)) = true.
-Proof. exact (go_meets_spec_proved uniques_numbered_per_type nested_tables_inherit view_refs_recorded). Qed.
+Proof. exact (go_meets_spec_within_proved uniques_numbered_per_type nested_tables_inherit view_refs_recorded). Qed.
 
-(* item for item: the model's output is the spec's output, up to the repetition of a workspace's
-   declared ACL block (the statements of an inherited workspace are applied once per heir) *)
+(* item for item: the model's output is the spec's output (a workspace's ACL is its declared block of
+   rules, once) *)
 Theorem go_model_item_for_item :
-  forall a, Forall2 item_ok (compile_items a Ideal) (compile_items a Go).
+  forall a, (parser_inherited_grants_once = true \/ no_inherited_acl a = true) ->
+  (parser_descriptor_refs_analysed = true \/ no_desc_ref_targets a = true) ->
+  Forall2 item_ok (compile_items a Ideal) (compile_items a Go).
 Proof. exact (go_item_for_item_proved uniques_numbered_per_type nested_tables_inherit view_refs_recorded). Qed.
 
-(* The same for any compiler of this family (mode m): at each of the three points it does what the
+(* The same for any compiler of this family (mode m): at each of the seven points it does what the
    spec does, or the schema avoids the shape on which they differ ... *)
 Theorem any_mode_meets_spec_conditional :
   forall a m, wf a = true ->
   (m_uniq_per_type m = true \/ no_unique_collision a m = true) ->
   (m_nested_inherit m = true \/ no_nested_user_inherit a = true) ->
   (m_view_refs m = true \/ no_view_ref_targets a = true) ->
+  (m_acl_repeat m = false \/ no_inherited_acl a = true) ->
+  (m_res_pkg m = true \/ names_distinct a = true) ->
+  (m_res_inh m = true \/ inherits_qualified a = true) ->
+  (m_desc_refs m = true \/ no_desc_ref_targets a = true) ->
   exists d, compile a m = Some d /\ satisfies (Trace a (render a) (Compiled d true true)) = true.
 Proof. exact satisfies_model_output_proved. Qed.
 
@@ -107,6 +122,48 @@ Example before_repair_refuted_F25 :
   /\ no_unique_collision a_f25 GoBefore = true /\ no_nested_user_inherit a_f25 = true /\ no_view_ref_targets a_f25 = false.
 Proof. split; [vm_compute; reflexivity|]. split; [eexists; split; vm_compute; reflexivity|]. vm_compute. repeat split. Qed.
 
+(* ... the same for F26..F29: each variant below is the spec's compiler with ONE point switched to the
+   old behaviour; each probe is well-formed and hits exactly that shape (corpus/C17/f26..f29).
+   F28 and F29 compile to something the oracle refuses (a rule three times; reference targets lost);
+   for F26 and F27 the old name resolution is not modelled - `compile` yields None there and `agrees`
+   abstains - the real compiler miscompiled the first (liba.Foo with app1.Foo's fields) and refused
+   the second and third (`undefined table kind`, `undefined workspace`). *)
+Definition a_f26 : schema := [(Pkg "app1"%string [[(Ws "W"%string false [(QR "liba"%string "Base"%string)] None [(ITable (Table "Foo"%string false (Some (QR "sys"%string "CDoc"%string)) [(TField (Fld "mainfield"%string DInt32 false false None))])); (ITable (Table "T"%string false (Some (QR "sys"%string "CDoc"%string)) [(TRef "r"%string [(QR "liba"%string "Foo"%string)] false)]))])]]); (Pkg "liba"%string [[(Ws "Base"%string true [] None [(ITable (Table "Foo"%string false (Some (QR "sys"%string "CDoc"%string)) [(TField (Fld "libfield"%string DInt32 false false None))]))])]])].
+Definition a_f27t : schema := [(Pkg "app1"%string [[(Ws "W"%string false [(QR "liba"%string "Base"%string)] None [(ITable (Table "T"%string false (Some (QR "liba"%string "Mid"%string)) [(TField (Fld "c"%string DInt32 false false None))]))])]]); (Pkg "liba"%string [[(Ws "Base"%string true [] None [(ITable (Table "Root"%string true (Some (QR "sys"%string "CDoc"%string)) [(TField (Fld "a"%string DInt32 false false None))])); (ITable (Table "Mid"%string true (Some (QR ""%string "Root"%string)) [(TField (Fld "b"%string DInt32 false false None))]))])]])].
+Definition a_f27w : schema := [(Pkg "app1"%string [[(Ws "W"%string false [(QR "liba"%string "Mid"%string)] None [])]]); (Pkg "liba"%string [[(Ws "Root"%string true [] None [(IRole "r"%string false)]); (Ws "Mid"%string true [(QR ""%string "Root"%string)] None [])]])].
+Definition a_f28 : schema := [(Pkg "app1"%string [[(Ws "BaseWs"%string true [] None [(IRole "role1"%string false); (ITable (Table "Table1"%string false (Some (QR "sys"%string "CDoc"%string)) [(TField (Fld "a"%string DInt32 false false None))])); (IGrant (Grant false (GTable (QR ""%string "Table1"%string) [(OInsert, [])]) (QR ""%string "role1"%string)))]); (Ws "W1"%string false [(QR "app1"%string "BaseWs"%string)] None []); (Ws "W2"%string false [(QR "app1"%string "BaseWs"%string)] None [])]])].
+Definition a_f29 : schema := [(Pkg "app1"%string [[(Ws "W"%string false [] (Some [(DRef "x"%string [(QR ""%string "Foo"%string)] true); (DField (Fld "d"%string DInt32 false false None)); (DRef "y"%string [(QR "app1"%string "Foo"%string)] false); (DRef "w"%string [] false)]) [(ITable (Table "Foo"%string false (Some (QR "sys"%string "CDoc"%string)) [(TField (Fld "a"%string DInt32 false false None))]))])]])].
+Definition a_f29bad : schema := [(Pkg "app1"%string [[(Ws "W"%string false [] (Some [(DRef "x"%string [(QR ""%string "NoSuch"%string)] true)]) [])]])].
+
+Example shapes_of_the_probes :
+  (wf a_f26 = true /\ names_distinct a_f26 = false /\ inherits_qualified a_f26 = true /\ no_inherited_acl a_f26 = true /\ no_desc_ref_targets a_f26 = true)
+  /\ (wf a_f27t = true /\ names_distinct a_f27t = true /\ inherits_qualified a_f27t = false /\ no_inherited_acl a_f27t = true /\ no_desc_ref_targets a_f27t = true)
+  /\ (wf a_f27w = true /\ names_distinct a_f27w = true /\ inherits_qualified a_f27w = false /\ no_inherited_acl a_f27w = true /\ no_desc_ref_targets a_f27w = true)
+  /\ (wf a_f28 = true /\ names_distinct a_f28 = true /\ inherits_qualified a_f28 = true /\ no_inherited_acl a_f28 = false /\ no_desc_ref_targets a_f28 = true)
+  /\ (wf a_f29 = true /\ names_distinct a_f29 = true /\ inherits_qualified a_f29 = true /\ no_inherited_acl a_f29 = true /\ no_desc_ref_targets a_f29 = false)
+  /\ wf a_f29bad = false.
+Proof. vm_compute. repeat split. Qed.
+
+Example old_name_lookup_not_the_spec_F26 : compile a_f26 (Mode true true true false false true true) = None.
+Proof. vm_compute. reflexivity. Qed.
+Example old_inherits_resolution_not_the_spec_F27 :
+  compile a_f27t (Mode true true true false true false true) = None /\ compile a_f27w (Mode true true true false true false true) = None.
+Proof. vm_compute. split; reflexivity. Qed.
+Example repeated_acl_refuted_F28 :
+  exists d, compile a_f28 (Mode true true true true true true true) = Some d
+            /\ satisfies (Trace a_f28 (render a_f28) (Compiled d true true)) = false.
+Proof. eexists; split; vm_compute; reflexivity. Qed.
+Example lost_descriptor_refs_refuted_F29 :
+  exists d, compile a_f29 (Mode true true true false true true false) = Some d
+            /\ satisfies (Trace a_f29 (render a_f29) (Compiled d true true)) = false.
+Proof. eexists; split; vm_compute; reflexivity. Qed.
+(* and the spec's compiler (= every repair present) passes on all of them *)
+Example spec_compiler_on_the_probes :
+  forallb (fun a => match compile a Ideal with
+                    | Some d => satisfies (Trace a (render a) (Compiled d true true))
+                    | None => false end) [a_f26; a_f27t; a_f27w; a_f28; a_f29] = true.
+Proof. vm_compute. reflexivity. Qed.
+
 (* the three probes are accepted by the oracle for the compiler as it is *)
 Example repaired_probes :
   (exists d, compile a_f23 Go = Some d /\ satisfies (Trace a_f23 (render a_f23) (Compiled d true true)) = true)
@@ -118,12 +175,12 @@ Proof. repeat split; eexists; split; vm_compute; reflexivity. Qed.
    table with seven fields, references, uniques, grants in the inherited workspace) is well-formed,
    compiles to 11 items; the nested table's compiled fields are the
    five system fields of a CRecord followed by the seven declared ones in order *)
-Definition ex : schema := [(Pkg "app1"%string [[(Ws "W1"%string false [(QR "liba"%string "AW"%string)] (Some [(Fld "d"%string (DVarchar (Some 10%N)) false false None)]) [(ITable (Table "T2"%string false (Some (QR "liba"%string "Base"%string)) [(TField (Fld "g"%string (DVarchar (Some 65535%N)) true false None)); (TRef "r"%string [(QR "liba"%string "T1"%string); (QR ""%string "T2"%string)] false); (TNested "rows"%string (Table "T2Row"%string false (Some (QR "sys"%string "CRecord"%string)) [(TField (Fld "f1"%string DInt8 false false None)); (TField (Fld "f2"%string DInt16 false false None)); (TField (Fld "f3"%string DFloat32 false false None)); (TField (Fld "f4"%string DFloat64 false false None)); (TField (Fld "f5"%string DTimestamp false false None)); (TField (Fld "f6"%string DCurrency false false None)); (TField (Fld "f7"%string DBlob true false None)); (TUnique None ["f1"%string; "f2"%string])]))])); (IRole "R2"%string false); (IGrant (Grant false (GTable (QR ""%string "T2"%string) [(OSelect, ["g"%string]); (OUpdate, [])]) (QR ""%string "R2"%string))); (IGrant (Grant false (GRole (QR "liba"%string "R1"%string)) (QR ""%string "R2"%string)))])]; [(Ws "W2"%string false [] None [(IUse "W1"%string)])]]); (Pkg "liba"%string [[(Ws "AW"%string true [] None [(IRole "R1"%string true); (ITable (Table "Base"%string true (Some (QR "sys"%string "CDoc"%string)) [(TField (Fld "bx"%string DInt64 true false None)); (TUnique (Some "ub"%string) ["bx"%string])])); (ITable (Table "T1"%string false (Some (QR "liba"%string "Base"%string)) [(TField (Fld "h"%string DQName false false None))])); (IGrant (Grant false (GTableAll (QR ""%string "T1"%string) []) (QR ""%string "R1"%string))); (IGrant (Grant true (GTable (QR ""%string "T1"%string) [(OUpdate, ["h"%string])]) (QR ""%string "R1"%string)))])]])].
+Definition ex : schema := [(Pkg "app1"%string [[(Ws "W1"%string false [(QR "liba"%string "AW"%string)] (Some [(DField (Fld "d"%string (DVarchar (Some 10%N)) false false None))]) [(ITable (Table "T2"%string false (Some (QR "liba"%string "Base"%string)) [(TField (Fld "g"%string (DVarchar (Some 65535%N)) true false None)); (TRef "r"%string [(QR "liba"%string "T1"%string); (QR ""%string "T2"%string)] false); (TNested "rows"%string (Table "T2Row"%string false (Some (QR "sys"%string "CRecord"%string)) [(TField (Fld "f1"%string DInt8 false false None)); (TField (Fld "f2"%string DInt16 false false None)); (TField (Fld "f3"%string DFloat32 false false None)); (TField (Fld "f4"%string DFloat64 false false None)); (TField (Fld "f5"%string DTimestamp false false None)); (TField (Fld "f6"%string DCurrency false false None)); (TField (Fld "f7"%string DBlob true false None)); (TUnique None ["f1"%string; "f2"%string])]))])); (IRole "R2"%string false); (IGrant (Grant false (GTable (QR ""%string "T2"%string) [(OSelect, ["g"%string]); (OUpdate, [])]) (QR ""%string "R2"%string))); (IGrant (Grant false (GRole (QR "liba"%string "R1"%string)) (QR ""%string "R2"%string)))])]; [(Ws "W2"%string false [] None [(IUse "W1"%string)])]]); (Pkg "liba"%string [[(Ws "AW"%string true [] None [(IRole "R1"%string true); (ITable (Table "Base"%string true (Some (QR "sys"%string "CDoc"%string)) [(TField (Fld "bx"%string DInt64 true false None)); (TUnique (Some "ub"%string) ["bx"%string])])); (ITable (Table "T1"%string false (Some (QR "liba"%string "Base"%string)) [(TField (Fld "h"%string DQName false false None))])); (IGrant (Grant false (GTableAll (QR ""%string "T1"%string) []) (QR ""%string "R1"%string))); (IGrant (Grant true (GTable (QR ""%string "T1"%string) [(OUpdate, ["h"%string])]) (QR ""%string "R1"%string)))])]])].
 
 Example ex_nonvacuous :
   wf ex = true
   /\ List.length (compile_items ex Ideal) = 11%nat
-  /\ (exists d, compile ex Go = Some d /\ satisfies (Trace ex (render ex) (Compiled d true true)) = true)
+  /\ (exists d, compile ex Ideal = Some d /\ satisfies (Trace ex (render ex) (Compiled d true true)) = true)
   /\ match find (fun i => qname_eqb (item_key i) ("app1", "T2Row")%string) (compile_items ex Ideal) with
      | Some (ItStruct _ k _ _ _ fs _ us) =>
        k = KCRecord /\ map fd_name fs = ["sys.QName"; "sys.ID"; "sys.ParentID"; "sys.Container"; "sys.IsActive";
@@ -164,5 +221,11 @@ Print Assumptions before_repair_refuted_F23.
 Print Assumptions before_repair_refuted_F24.
 Print Assumptions before_repair_refuted_F25.
 Print Assumptions repaired_probes.
+Print Assumptions shapes_of_the_probes.
+Print Assumptions old_name_lookup_not_the_spec_F26.
+Print Assumptions old_inherits_resolution_not_the_spec_F27.
+Print Assumptions repeated_acl_refuted_F28.
+Print Assumptions lost_descriptor_refs_refuted_F29.
+Print Assumptions spec_compiler_on_the_probes.
 Print Assumptions ex_nonvacuous.
 Print Assumptions ex_declares_role.
